@@ -28,7 +28,7 @@ from vlib.pipeline import Case
 
 PID = "C18"
 GEN = []
-LEAN = ["Ymq.Props.C18"]
+LEAN = ["Ymq.Props.C18", "Ymq.Props.C18C19"]
 AUDIT = "Ymq.Audit.C18"
 PROFILES = ["release", "chk"]
 TIMEOUT = 60.0
@@ -974,15 +974,6 @@ def case_kv(case):
     return dict(t.split("=", 1) for t in case.args if "=" in t)
 
 
-def _listed_keys():
-    import json, os
-    path = os.path.join(os.path.dirname(os.path.dirname(os.path.abspath(__file__))), "known_findings.json")
-    try:
-        return {e["key"] for e in json.load(open(path)).get("findings", []) if e.get("property") == PID}
-    except Exception:
-        return set()
-
-
 def sparse_empty_structure(case, ans):
     """(h, D) when the answer has the shape of the group_structure_sparse defect: a factor base above 800 was
     requested (`fb=`), a class number h > 1 was returned and NO cyclic factor is listed; else None"""
@@ -1065,13 +1056,11 @@ def oracle(case, ans):
     sparse_msg = None
     if sparse is not None:
         # group_structure_sparse returns `invariants: vec![]` (source: "FIXME: structure is incomplete"): the listed cyclic
-        # factors (none) multiply to 1, not to h. Everything else (class number, relation lines) is judged as usual; the
-        # structure failure is reported under its finding key once known_findings.json lists it (until then it is only
-        # counted, so that the check of the unchanged tree stays OK).
+        # factors (none) multiply to 1, not to h: an oracle failure, unconditionally (finding_key maps it to the known
+        # finding). The class number and the relation lines are judged as usual and reported first when they fail.
         _COV["sparse_empty"] += 1
-        if SPARSE_KEY in _listed_keys():
-            sparse_msg = (f"D = {D}, fb_size = {case_kv(case)['fb']}: class number {sparse[0]} but NO cyclic factor is listed "
-                          f"(group_structure_sparse): the listed factors multiply to 1")
+        sparse_msg = (f"D = {D}, fb_size = {case_kv(case)['fb']}: class number {sparse[0]} but NO cyclic factor is listed "
+                      f"(group_structure_sparse): the listed factors multiply to 1")
     if op == "cg_h":
         h, invs = _parse_h(ans)
         return _check_h(D, h, invs, case.tag, structure=sparse is None) or sparse_msg
@@ -1422,14 +1411,18 @@ def nontrivial(case, ans):
 THEOREMS = ["Ymq.C18." + t for t in (
     "b_plus_unique parity_exactly_one bPlus_spec_odd bPlus_spec_even sign_total sign_exclusive large_sign_consistent poly_factors_total relation_no_panic "
     "emitted_subset_inputs complete_relations_emitted store_total emit_hom emit_hom_map relLine_val "
-    "reduced_enum_sound reduced_enum_complete reduced_enum_nodup reduced_enum invariants_multiply invariantsOk_spec").split()]
+    "reduced_enum_sound reduced_enum_complete reduced_enum_nodup reduced_enum invariants_multiply invariantsOk_spec").split()] + [
+    "Ymq.C18C19.reported_invariants_multiply"]
 HYPOTHESES = [
     "classNumber_is_reduced_count (definition, not proved): the class number h(D) of the imaginary quadratic order of discriminant D "
     "is the number of reduced primitive positive definite forms of discriminant D (Gauss); `classNumber D` is DEFINED as that count, "
     "theorem reduced_enum proves the enumeration exact",
     "emit_hom takes the triviality of every INPUT relation as its hypothesis (phi kills the inputs): that a sieved relation is a genuine "
     "relation needs the theory of composition of forms, which is not formalised here",
-    "invariants_multiply takes `diag.prod = h` (the Smith form output, property C19) as its hypothesis",
+    "invariants_multiply takes `diag.prod = h` (the Smith form output, property C19) as its hypothesis; C18C19.reported_invariants_multiply "
+    "discharges it with C19 snf_diag and takes instead two facts about the state returned by SmithNormalForm::reduce that C19 does not prove: "
+    "snf_square (rows.len() = gens.len()) and snf_diag_nonneg (diagonal entries >= 0, so that `d as u128` does not wrap); both are checked on every "
+    "real result by the driver (invariantsOk)",
 ]
 RULE = ("class numbers: every fundamental D with |D| below the tier bound (4*10^4 quick, 10^6 thorough), each also with a thread pool for a "
         "1/23 sample; random fundamental D of 16..34 (quick) / 16..40 (thorough) bits in the four classes D mod 16 in {1 mod 8, 5 mod 8, 8, 12}, "
